@@ -163,9 +163,9 @@ Proof.
     rewrite with_parts_id, L1 in H. cbn [bind negb] in H. rewrite Eh in H.
     match type of H with context [save_header ?a ?b ?c] => destruct (save_header a b c) as [os1 ok1] end.
     destruct ok1; cbn [negb] in H; [|now injection H as <-].
-    match type of H with context [sections_plan ?a ?b ?c ?d ?e ?f ?g0 ?h1] =>
-      destruct (sections_plan a b c d e f g0 h1) as [[[st1 secs1] plan]|] eqn:E end; cbn [bind] in H; [|discriminate].
-    destruct (sections_plan_quiet junk _ _ _ _ _ _ _ _ _ _ Q1 N1 E) as [-> ->]. cbn [rev_append] in H.
+    match type of H with context [sections_plan ?a ?b ?c ?d ?e ?f ?g0 ?h1 ?i1] =>
+      destruct (sections_plan a b c d e f g0 h1 i1) as [[[st1 secs1] plan]|] eqn:E end; cbn [bind] in H; [|discriminate].
+    destruct (sections_plan_quiet junk _ _ _ _ _ _ _ _ _ _ _ Q1 N1 E) as [-> ->]. cbn [rev_append] in H.
     assert (Eid : with_stream (with_secs el1 (el_secs el1)) (el_stream el1) = el1) by (destruct el1; reflexivity).
     rewrite Eid in H.
     destruct (os_abort (exec_plan os1 plan)); [discriminate|].
